@@ -30,6 +30,14 @@ type Spec struct {
 	Doc     pdfw.DocSpec `json:"doc"`
 	History [][]Step     `json:"history"` // per revision
 	MapSeed uint64       `json:"map_seed,omitempty"`
+	// Unloadable: at-rest fault (documents without updates only): the cross-reference entry of
+	// one content stream of one page points at another object, so that this piece of the
+	// page cannot be loaded. The page must then fail, or be complete - never silently partial.
+	Unloadable *Unloadable `json:"unloadable,omitempty"`
+}
+
+type Unloadable struct {
+	Page, Piece int
 }
 
 type Prop struct{}
@@ -67,6 +75,11 @@ func (p *Prop) Generate(base uint64, index int, env *sim.Env) *sim.Case {
 	if r.Pct(50) {
 		sp.MapSeed = r.Uint64() | 1
 	}
+	mode := "history"
+	if doc.Revisions == 0 && r.Pct(30) {
+		sp.Unloadable = &Unloadable{Page: r.Intn(8), Piece: r.Intn(4)}
+		mode = "faults"
+	}
 	hr := r.Split("history")
 	maxPages := doc.Pages + doc.Revisions + 1
 	for rev := 0; rev <= doc.Revisions; rev++ {
@@ -82,9 +95,31 @@ func (p *Prop) Generate(base uint64, index int, env *sim.Env) *sim.Case {
 		}
 		sp.History = append(sp.History, steps)
 	}
-	c := &sim.Case{Prop: "C01", Seed: seed, Index: index, Mode: "history"}
+	c := &sim.Case{Prop: "C01", Seed: seed, Index: index, Mode: mode}
 	c.SetSpec(sp)
 	return c
+}
+
+// genCase generates the file of a case, with its at-rest fault if it has one.
+func genCase(sp *Spec) (*pdfw.GenDoc, int) {
+	gen := pdfw.Generate(sp.Doc)
+	if u := sp.Unloadable; u != nil && sp.Doc.Revisions == 0 && len(gen.PageContent) > 0 {
+		pg := u.Page % len(gen.PageContent)
+		if pieces := gen.PageContent[pg]; len(pieces) > 0 {
+			victim := pieces[u.Piece%len(pieces)]
+			target, ok := gen.Built.Offsets[0][gen.Catalog]
+			if _, plain := gen.Built.Offsets[0][victim]; ok && plain {
+				gen = pdfw.GenerateWith(sp.Doc, nil, nil, func(rev, num, off int) int {
+					if num == victim {
+						return target
+					}
+					return off
+				})
+				return gen, pg
+			}
+		}
+	}
+	return gen, -1
 }
 
 func stripSpace(s string) string {
@@ -154,7 +189,10 @@ func (p *Prop) Execute(c *sim.Case, env *sim.Env) *sim.Result {
 	res := &sim.Result{Status: "ok"}
 	var commits [][]byte
 	var models []pdfw.DocModel
-	gen := pdfw.Generate(sp.Doc)
+	gen, damagedPage := genCase(&sp)
+	if damagedPage >= 0 {
+		res.Count("fault.unloadable-content.injected", 1)
+	}
 	commits, models = gen.Commits, gen.Models
 	if img, ok := c.Images["pdf"]; ok {
 		// replay from materialised bytes: cut at the recorded revision ends
@@ -296,6 +334,10 @@ func (p *Prop) Execute(c *sim.Case, env *sim.Env) *sim.Result {
 					break
 				}
 				if oc.Kind != "ok" {
+					if pg == damagedPage && oc.Kind == "error" && (st.Op == "frag" || st.Op == "text") {
+						res.Count("fault.unloadable-content.fired", 1)
+						break // a piece of this page cannot be loaded: failing is the right answer
+					}
 					setFail(st.Op+":"+oc.Kind, fmt.Sprintf("%s: %s %s", where, oc.Where, oc.Msg))
 					break
 				}
@@ -350,6 +392,9 @@ func (p *Prop) Execute(c *sim.Case, env *sim.Env) *sim.Result {
 					setFail("ext.pagecount:wrong", fmt.Sprintf("%s: got %d, expected %d", where, n, len(model.Pages)))
 				}
 			case "meta.text", "meta.markdown", "meta.jsonl", "meta.document":
+				if damagedPage >= 0 {
+					break
+				}
 				// "no matter how the file stores it": the complete result for this file must be
 				// byte-identical to the result for the same logical document stored plainly
 				if !sameLogical {
@@ -441,6 +486,10 @@ func (p *Prop) Execute(c *sim.Case, env *sim.Env) *sim.Result {
 					}
 				})
 				if oc.Kind != "ok" {
+					if damagedPage >= 0 && oc.Kind == "error" && (!inRange || pg == damagedPage || st.Op == "ext.text") {
+						res.Count("fault.unloadable-content.fired", 1)
+						break
+					}
 					setFail(st.Op+":"+oc.Kind, fmt.Sprintf("%s: %s %s", where, oc.Where, oc.Msg))
 				} else if st.Op == "ext.frags" && stripSpace(got) != want {
 					a, b := sim.DiffContext(want, stripSpace(got))
@@ -600,7 +649,8 @@ func (p *Prop) Finalise(c *sim.Case, env *sim.Env) {
 	if c.Images == nil {
 		c.Images = map[string][]byte{}
 	}
-	c.Images["pdf"] = pdfw.Generate(sp.Doc).Built.Bytes
+	g, _ := genCase(&sp)
+	c.Images["pdf"] = g.Built.Bytes
 }
 
 // Probes: one small document per listed finding, with exactly its features on.
